@@ -286,8 +286,32 @@ def keyed_constructions(prog, funcs):
                         out[k.value] = (ci, f, v)
     # module-level dispatch tables
     mods = {f.module for f in funcs}
+
+    def entry_class(m, val, depth=0):
+        e = val.func if isinstance(val, ast.Call) else val
+        if isinstance(e, ast.Attribute) and e.attr == "from_properties":
+            e = e.value
+        ci = prog.resolve_class(m, e) if isinstance(e, (ast.Name, ast.Attribute)) else None
+        if ci is None and isinstance(e, (ast.Name, ast.Attribute)) and depth < 2:
+            # a module helper that builds the object:  def _make_x(props, i): return Cls.from_properties(props, i, 'X')
+            r = prog.resolve_expr(m, e)
+            if r and r[0] == "func":
+                found = {entry_class(r[1].module, c) for x in walk_body(r[1].node) if isinstance(x, ast.Return) and x.value is not None
+                         for c in [x.value] if isinstance(c, ast.Call)}
+                found.discard(None)
+                if len(found) == 1:
+                    ci = found.pop()
+        return ci
     for m in mods:
         for name, v in m.assigns.items():
+            if isinstance(v, (ast.Tuple, ast.List)) and v.elts and all(
+                    isinstance(el, (ast.Tuple, ast.List)) and len(el.elts) == 2 and isinstance(el.elts[0], ast.Constant) and isinstance(el.elts[0].value, str)
+                    for el in v.elts):
+                # ('Name', Cls.from_properties) pairs searched in order
+                for el in v.elts:
+                    ci = entry_class(m, el.elts[1])
+                    if ci is not None and el.elts[0].value not in out:
+                        out[el.elts[0].value] = (ci, None, el.elts[1])
             if isinstance(v, ast.Dict) and v.keys and all(isinstance(k, ast.Constant) and isinstance(k.value, str) for k in v.keys):
                 for k, val in zip(v.keys, v.values):
                     e = val.func if isinstance(val, ast.Call) else val
